@@ -306,6 +306,31 @@ def ddnrows : P String := do
   let v := v.failIf (!okIn) "DDNGraph::getIds(feature,j) parent_index_outside_block"
   return v.render
 
+def jalEvent (nA : Nat) : P (Nat × List Nat × Nat × Rat) := do
+  let s ← P.nat; let aa ← P.rep P.nat nA; let s1 ← P.nat; let r ← P.q
+  pure (s, aa, s1, r)
+
+/-- `jal S A id alpha gamma hist | jointQ singleQ` : a whole JointActionLearner history replayed by the model in exact
+    rationals; compared to 1e-9 (40 updates exceed 53 bits; singleQ also divides by visit counts).  The bit-exact
+    comparison JointActionLearner vs MDP::QLearning (double vs double) is the `eq` line of the same case. -/
+def jal : P String := do
+  let nS ← P.nat; let A ← P.nats; let id ← P.nat; let alpha ← P.q; let gamma ← P.q
+  let hist ← P.list (jalEvent A.length); P.bar
+  let iq ← P.qss; let isq ← P.qss; P.eof
+  let j := jalRun alpha gamma (jalInit nS A id) hist
+  let comp := "JointActionLearner"
+  let v : Verdict := { tag := "jal" }
+  let closeTab := fun (m i : List (List Rat)) => m.length == i.length && (m.zip i).all (fun (a, b) => a.length == b.length && (a.zip b).all (fun (x, y) => closeQ (1 / 1000000000) x y))
+  let v := v.diffIf (!closeTab j.q iq) s!"{comp} jointQ model≠impl"
+  let v := v.diffIf (!closeTab j.single isq) s!"{comp} singleQ model≠impl"
+  -- property: the joint Q-function is the flat QLearning table of the same history re-indexed by toIndex(A, a)
+  let flat := qlRun alpha gamma (List.replicate nS (List.replicate (space A) 0)) (hist.map (fun e => (e.1, toIndex A e.2.1, e.2.2.1, e.2.2.2)))
+  let v := v.failIf (!closeTab flat iq) s!"{comp} joint_q_differs_from_flat"
+  -- with a single agent the agent's own Q-function is the joint one on every visited state
+  let visited := hist.map (·.1)
+  let v := v.failIf (A.length == 1 && !(visited.all (fun s => isq.getD s [] == iq.getD s []))) s!"{comp} single_agent_q_differs_from_joint"
+  return v.render
+
 /-- `eq <component> <kind> exact|close | a | b` : two implementations that must coincide (flat vs single-factor) -/
 def eqv : P String := do
   let comp ← P.tok; let kind ← P.tok; let mode ← P.tok; P.bar
@@ -338,6 +363,7 @@ def handle (toks : List String) : Option String :=
   | "fmscale" :: rest => P.run fmscale rest
   | "ddn" :: rest => P.run ddn rest
   | "ddnrows" :: rest => P.run ddnrows rest
+  | "jal" :: rest => P.run jal rest
   | "eq" :: rest => P.run eqv rest
   | "probe" :: rest => P.run probe rest
   | _ => none
